@@ -50,7 +50,7 @@ func Profile() *world.Profile {
 		world.ShCtxErr: 1, world.ShCtxIntStr: 2, world.ShCtxIntErr: 1, world.ShCtxStrErr: 1, world.ShTeapot: 1, world.ShLogger: 1, world.ShRWReqTok: 1, world.ShCtxSvc: 0} {
 		p.Shapes[i] = w
 	}
-	p.Ops = make([]int, 20)
+	p.Ops = make([]int, 24)
 	for i, w := range map[int]int{world.OpYield: 2, world.OpWriteHeader: 2, world.OpWrite: 3, world.OpFlush: 1, world.OpNext: 5, world.OpNextSwallow: 1,
 		world.OpSetHeader: 1, world.OpStatus: 1, world.OpSeeSvc: 1, world.OpMapExtra: 1, world.OpSeeExtra: 1} {
 		p.Ops[i] = w
@@ -205,7 +205,7 @@ func (Engine) Run(t *tape.Tape, o eng.Opts) *eng.Result {
 					tok := true
 					if e.A >= 0 {
 						k = world.PanicKindNames[e.A]
-						tok = e.A == world.PvString || e.A == world.PvError || e.A == world.PvStruct || e.A == world.PvWrapped
+						tok = e.A == world.PvString || e.A == world.PvError || e.A == world.PvStruct || e.A == world.PvWrapped || e.A == world.PvErrSlice || e.A == world.PvMap
 					}
 					at := idxOf(int(e.H))
 					if e.A < 0 {
